@@ -10,7 +10,10 @@
 (*   a cell flagged exotic whose type byte is unknown (0xff), or whatever      *)
 (*     byte the data happened to start with; a Merkle-proof header in place of *)
 (*     the cell;                                                               *)
-(* and the bag is also written with no root and with two roots.  The bytes     *)
+(* the bag is also written with no root and with two roots, and with its root   *)
+(* wrapped in a Merkle-proof cell (hash and depth of the root computed by        *)
+(* Cells!InfoTable) as a lite server sends proofs - alone and as the second of   *)
+(* two roots, the shape of an account-state proof.  The bytes                    *)
 (* are produced by the reference writer Boc!Write; every mutant is labelled    *)
 (* with its class, the seed and the cell.  The Go side parses each bag with    *)
 (* the library's reader - the path data from the network takes - and decodes   *)
@@ -22,7 +25,7 @@ Seeds == ndJsonDeserialize("seeds.ndjson")
 Rep(n, v) == [i \in 1..n |-> v]
 CellClasses == {"pruned", "pruned_wronghash", "pruned_mask7", "pruned_short", "library", "library_short",
                 "exotic_ff", "exotic_flag", "merkle_hdr"}
-BagClasses  == {"roots0", "roots2", "roots2same"}
+BagClasses  == {"roots0", "roots2", "roots2same", "mp_root", "mp_pair"}
 
 TableOf(s) == FromJson(s.cells)
 
@@ -51,6 +54,13 @@ NewCell(T, k, cls) ==
 \* masks of the mutated table: pruned branches carry their own, everything above follows from the children
 Remask(T) == WithMasks([i \in 1..Len(T) |-> [T[i] EXCEPT !.m = -1]])
 
+\* the table with a Merkle-proof cell on top of its root
+Wrapped(T) ==
+  LET I == InfoTable(T)
+      mp == [b |-> BytesToBits(<<3>> \o I[1].h[1] \o U16(I[1].d[1])), x |-> MerkleProof, r |-> <<2>>, m |-> -1]
+      sh == [i \in 1..Len(T) |-> [T[i] EXCEPT !.r = [j \in 1..Len(T[i].r) |-> T[i].r[j] + 1]]]
+  IN Remask(<<mp>> \o sh)
+
 Applicable(T, k, cls) == cls = "exotic_flag" => Len(T[k].b) >= 8
 
 Choice(i) == [magic |-> "generic", idx |-> (i % 2 = 0), crc |-> (i % 3 = 0), cache |-> FALSE, size |-> 1, ob |-> 2, hashes |-> FALSE]
@@ -58,7 +68,9 @@ Choice(i) == [magic |-> "generic", idx |-> (i % 2 = 0), crc |-> (i % 3 = 0), cac
 VARIABLES s, k, cls, out
 Mutant ==
   LET T == TableOf(Seeds[s]) IN
-  IF cls \in BagClasses
+  IF cls \in {"mp_root", "mp_pair"}
+    THEN Write(Wrapped(T), IF cls = "mp_root" THEN <<1>> ELSE <<1, 1>>, Choice(s))
+  ELSE IF cls \in BagClasses
     THEN Write(T, CASE cls = "roots0" -> <<>> [] cls = "roots2" -> <<1, 2>> [] OTHER -> <<1, 1>>, Choice(s))
     ELSE Write(Remask(Compact([T EXCEPT ![k] = NewCell(T, k, cls)])), <<1>>, Choice(s + k))
 
